@@ -242,18 +242,25 @@ def storeRates (cfg : Cfg K) (wInc : Nat) (s : State K) : State K × Option Err 
     ({ s with rates := writeCol rates s.core.iter cur, peak := pyMax s.peak agg }, none)
   else ({ s with rates := rates }, some .indexError)
 
+/-- simulator.py:132-135: `width_increase` -/
+def widthInc (s : State K) : Nat :=
+  match lastTs s.core.pending with
+  | some l => (l + 1).toNat
+  | none => s.core.iter + 1
+
+/-- simulator.py:136-137 -/
+def widen (s : State K) : State K :=
+  { s with pilots := Pilots.increaseWidth s.pilots (widthInc s),
+           rates := Pilots.increaseWidth s.rates (widthInc s) }
+
 /-- simulator.py:132-141 -/
 def applyStage (cfg : Cfg K) (s : State K) : State K × Option Err :=
-  let wInc : Nat := match lastTs s.core.pending with
-    | some l => (l + 1).toNat
-    | none => s.core.iter + 1
-  let s1 := { s with pilots := Pilots.increaseWidth s.pilots wInc, rates := Pilots.increaseWidth s.rates wInc }
-  if s1.pilots.width ≤ s1.core.iter then (s1, some .indexError)     -- numpy `pilots[k, i]`
+  if (widen s).pilots.width ≤ s.core.iter then (widen s, some .indexError)     -- numpy `pilots[k, i]`
   else
-    match updatePilots cfg s1 with
+    match updatePilots cfg (widen s) with
     | (s2, some e) => (s2, some e)
     | (s2, none) =>
-      match storeRates cfg wInc s2 with
+      match storeRates cfg (widthInc s) s2 with
       | (s3, some e) => (s3, some e)
       | (s3, none) =>
         ({ s3 with occLog := s3.occLog ++ [cfg.stations.map fun st => (s3.core.occ st.id).map (·.id)],
